@@ -56,7 +56,7 @@ impl Prop for C15 {
         }
     }
     fn required_probes(&self, tier: Tier) -> Vec<&'static str> {
-        let mut v = vec!["gap_sum_over_u32", "non_monotonic_timestamps", "tie_for_biggest_value", "tie_for_biggest_size", "coinbase_above_subsidy", "coinbase_below_subsidy", "height_around_halving", "sub_range", "coinbase_shaped_tx_not_first", "block_without_transactions_inside_range", "chain_longer_than_2_pow_18_blocks", "near_tie_for_biggest_size", "means_at_exact_rounding_ties"];
+        let mut v = vec!["gap_sum_over_u32", "non_monotonic_timestamps", "tie_for_biggest_value", "tie_for_biggest_size", "coinbase_above_subsidy", "coinbase_below_subsidy", "height_around_halving", "sub_range", "coinbase_shaped_tx_not_first", "block_without_transactions_inside_range", "chain_longer_than_2_pow_18_blocks", "near_tie_for_biggest_size", "means_at_exact_rounding_ties", "simplestats_beyond_height_2_pow_32"];
         if tier == Tier::Thorough {
             v.push("block_size_sum_over_u32");
         }
@@ -161,6 +161,33 @@ impl Prop for C15 {
             h.check(&mut scn)?;
             return Ok(());
         }
+        if item % 10 == 7 && item % 20 == 7 {
+            // heights beyond 2^32 (five-byte VarInt heights in the index): the report's "seen in block #" figures
+            // carry the full height. No transaction here has the coinbase shape (the subsidy formula is only
+            // defined for 64 halvings and C15 excludes heights beyond them for the fee figure).
+            scn.family = "heights-beyond-32-bits".into();
+            let base0 = (1u64 << 32) - 2 + rng.below(4) + if rng.coin() { 1u64 << 33 } else { 0 };
+            scn.base_height = base0;
+            let nb = rng.usize(2, 6);
+            for i in 0..nb {
+                let hh = base0 + i as u64;
+                let mut b = marker_block(hh, rng.usize(1, 3), rng);
+                // first transaction: an ordinary spend, not a coinbase
+                b.txs[0].inputs[0].prev_txid = Bytes(rng.bytes(32));
+                b.txs[0].inputs[0].prev_index = 0;
+                b.txs[0].outputs[0].value = rng.range(1, 1_000_000_000);
+                scn.chain.push(b);
+            }
+            scn.layouts = vec![random_layout(nb, 2, false, rng)];
+            scn.index = index_opts(rng);
+            let mut r = RunSpec::new("simplestats");
+            r.start = Some(base0);
+            r.threads = pick_threads(rng);
+            scn.runs = vec![r];
+            h.stats.probe("simplestats_beyond_height_2_pow_32");
+            h.check(&mut scn)?;
+            return Ok(());
+        }
         let base = match rng.below(6) {
             0 => 209_990 + rng.below(8),
             1 => 419_995 + rng.below(4),
@@ -181,11 +208,17 @@ impl Prop for C15 {
         let big_gaps = rng.chance(1, 3);
         let empty_blocks = nb >= 3 && rng.chance(1, 8);
         let mut ts: u32 = 1_300_000_000;
+        let mut huge_payout_done = false;
         for i in 0..nb {
             let hh = base + i as u64;
             let subsidy = if hh / 210000 >= 64 { 0 } else { (50u64 * 100_000_000) >> (hh / 210000) };
             let mut txs = vec![];
             let cb_val = match rng.below(4) {
+                // once per chain at most: a payout in the upper half of the u64 range (the chain total stays below 2^64)
+                _ if !huge_payout_done && nb <= 10 && !tie_value && rng.chance(1, 40) => {
+                    huge_payout_done = true;
+                    (1u64 << 63) + rng.below(1 << 40)
+                }
                 0 => subsidy,
                 1 => subsidy.saturating_sub(rng.range(1, 1000)),
                 2 => subsidy + rng.range(1, 50_000_000),
